@@ -341,7 +341,7 @@ fn judge_forged<G: Cv>(env: &Env, drv: &mut Driver, rep: &mut Report, stream: &s
             explained = true;
             let k = if class.starts_with("garbage") { "venc:decrypt-aborts-on-garbage-slot".to_string() }
                     else if class.starts_with("short") { "venc:short-encoding-skipped".to_string() }
-                    else if class.starts_with("adaptive") { "venc:accepted-without-recoverability".to_string() }
+                    else if ["adaptive", "swap", "cross", "commit-other-side", "open-plus-order"].iter().any(|p| class.starts_with(p)) { "venc:accepted-without-recoverability".to_string() }
                     else { format!("venc:verified-but-not-decryptable:{class}") };
             rep.pred_fail(fail(&k, "a proof that verifies does not decrypt to the discrete logarithm of the claimed point", &format!("verify=ok decrypt={d}"), "verify=ok ⇒ decrypt=ok:x with x*G = Q"));
         }
@@ -561,6 +561,9 @@ fn c10_curve<G: Cv>(o: &Opts, env: &Env, drv: &mut Driver, rep: &mut Report, rng
               "garbage:raw:0,1,2,3,4,5:4000", "garbagenog:raw:0,1,2,3,4,5,6,7", "garbagenog:wrongvalue:0,1,2,3,4,5,6,7", "wrongcommit:0", "wrongcommit:127", "wrongcommit:3,64",
               "wrongside:0", "wrongside:100", "wrongside:5,6,7", "shortr", "shortxr"] { strategies.push((s.to_string(), 128)); }
     strategies.push(("garbage:raw:0,200:200".into(), 256)); strategies.push(("shortr".into(), 200)); strategies.push(("plain".into(), 257)); strategies.push(("wrongside:256".into(), 257));
+    // exactly ONE conjunct of the per-slot acceptance condition violated (commitment relation of the selected side /
+    // re-encryption equals the ciphertext of the selected side), everything else honest, challenge recomputed, no grinding
+    for s in ["swap:all", "swap:one:0", "cross:0:1", "cross:5:100", "commit-other-side:0", "commit-other-side:3,64", "open-plus-order:0", "open-plus-order:127"] { strategies.push((s.to_string(), 128)); }
     // adaptive forgers that know only Q: each assumes the verifier's challenge omits one component class
     for d in ["g_r", "enc_x_r", "enc_r", "label", "Q"] { strategies.push((format!("adaptive:{d}"), 128)); }
     if thorough {
@@ -575,11 +578,13 @@ fn c10_curve<G: Cv>(o: &Opts, env: &Env, drv: &mut Driver, rep: &mut Report, rng
     for rep_i in 0..reps {
         for (si, (st, nslots)) in strategies.iter().enumerate() {
             // x: mostly random non-zero; x = 0 and x = order-1 now and then (for x = 0 both sides of a slot coincide)
-            let (_, x) = &xs[match (si + rep_i) % 7 { 0 => 0, 3 => 2, 5 => 3, _ => 8 + (si % 2) }];
+            let single = ["swap", "cross", "commit-other-side", "open-plus-order", "adaptive"].iter().any(|p| st.starts_with(p));
+            // (for x = 0 the two sides of a slot coincide and these forgeries are honest proofs: first repetition always x != 0)
+            let (_, x) = &xs[if single && rep_i == 0 { 8 + (si % 2) } else { match (si + rep_i) % 7 { 0 => 0, 3 => 2, 5 => 3, _ => 8 + (si % 2) } }];
             let mut label = vec![0u8; [3usize, 0, 40][(si + rep_i) % 3]]; rng.fill_bytes(&mut label);
             let kx = if thorough { &env.keys[(si + rep_i) % env.keys.len()] } else { key };
             let q = G::generator() * *x;
-            let class = { let f: Vec<&str> = st.split(':').collect(); let base = if f[0].starts_with("garbage") || f[0] == "adaptive" { format!("{}:{}", f[0], f[1]) } else { f[0].to_string() };
+            let class = { let f: Vec<&str> = st.split(':').collect(); let base = if f[0].starts_with("garbage") || f[0] == "adaptive" || (f[0] == "swap" && f[1] == "all") { format!("{}:{}", f[0], f[1]) } else { f[0].to_string() };
                           format!("{base}{}{}", if *nslots > 256 { ":slots>256" } else { "" }, if bool::from(x.is_zero()) { ":x=0" } else { "" }) };
             match forge::<G>(env, drv, x, kx, &label, *nslots, st, rng) {
                 Some(f) if f.adv_req.starts_with("skip:") => { if rep_i == 0 && G::BE { rep.notes.push(format!("{st}: {}", &f.adv_req[5..])); } rep.hist("adaptive:skipped-no-attack"); }
